@@ -196,7 +196,8 @@ class Module(object):
             raise AnalysisError("unit %s does not parse: %s" % (path, e))
         # behaviour-preserving normalisation (helpers that are not part of the reference tree are inlined)
         from . import normalize
-        self.normalize_log = normalize.unroll_table_dispatch(self.tree)
+        self.normalize_log = normalize.inline_new_constants(self.tree, name)
+        self.normalize_log += normalize.unroll_table_dispatch(self.tree)
         self.normalize_log += normalize.drain_loops_to_for(self.tree)
         self.normalize_log += normalize.inline_callable_aliases(self.tree)
         self.normalize_log += normalize.inline_new_helpers(self.tree, name)
